@@ -463,6 +463,22 @@ func TestVerif_C15(t *testing.T) {
 		hostile = append(hostile, [3]any{"huge-gid-count", xdrw.Record(xdrw.CallHeader(xid, vfProgNFS, 3, 0, xdrw.Cred{Flavor: 1, Body: (&xdrw.W{}).U32(1).Str("m").U32(0).U32(0).U32(decl).B})), xid})
 		xid++
 		hostile = append(hostile, [3]any{"huge-readdir-count", xdrw.Record(append(hdr(xid, 16), xdrw.ArgReaddir(dh, 0, [8]byte{}, decl)...)), xid})
+		// WRITE states its payload size twice (count and the length of the opaque): the two disagree
+		xid++
+		hostile = append(hostile, [3]any{"huge-write-data-length-small-count", xdrw.Record(append(hdr(xid, 7), (&xdrw.W{}).FH(tg.file).U64(0).U32(4).U32(2).U32(decl).Raw([]byte("ab")).B...)), xid})
+		xid++
+		hostile = append(hostile, [3]any{"huge-write-count-small-data-length", xdrw.Record(append(hdr(xid, 7), (&xdrw.W{}).FH(tg.file).U64(0).U32(decl).U32(2).U32(4).Raw([]byte("abcd")).B...)), xid})
+		// second and later strings of a call
+		xid++
+		hostile = append(hostile, [3]any{"huge-symlink-target", xdrw.Record(append(hdr(xid, 10), (&xdrw.W{}).FH(dh).Str("lnk").Sattr(xdrw.Sattr3{}).U32(decl).Raw([]byte("ab")).B...)), xid})
+		xid++
+		hostile = append(hostile, [3]any{"huge-rename-second-name", xdrw.Record(append(hdr(xid, 14), (&xdrw.W{}).FH(dh).Str("a").FH(dh).U32(decl).Raw([]byte("ab")).B...)), xid})
+		xid++
+		hostile = append(hostile, [3]any{"huge-link-name", xdrw.Record(append(hdr(xid, 15), (&xdrw.W{}).FH(tg.file).FH(dh).U32(decl).Raw([]byte("ab")).B...)), xid})
+		xid++
+		hostile = append(hostile, [3]any{"huge-mount-dirpath", xdrw.Record(append(xdrw.CallHeader(xid, vfProgMount, 3, 1, vfRootCred()), (&xdrw.W{}).U32(decl).Raw([]byte("/d")).B...)), xid})
+		xid++
+		hostile = append(hostile, [3]any{"huge-machine-name", xdrw.Record(xdrw.CallHeader(xid, vfProgNFS, 3, 0, xdrw.Cred{Flavor: 1, Body: (&xdrw.W{}).U32(1).U32(decl).Raw([]byte("m")).B})), xid})
 	}
 	const slack = 8 << 20 // 1 MiB record + transfer size + generous runtime/TLS-free slack
 	for _, h := range hostile {
